@@ -74,8 +74,10 @@ class Script:
                 raise RuntimeError(f"scripted failure of {self.name}")
             entry["outcome"] = "return"
             if "value" in p:
+                entry["ret"] = p["value"]
                 return p["value"]
             if "truthy" in p:
+                entry["ret"] = bool(p["truthy"])
                 return bool(p["truthy"])
         entry["outcome"] = "return"
         return None
@@ -146,6 +148,37 @@ def snapshot(obj, depth=0, memo=None):
                 pass
         return ns
     return obj
+
+
+def make_obj(cname, prefix, model, types_):
+    """build an instance of a (data)class from the model entries `<prefix>.<field>`"""
+    import dataclasses
+    C = find_class(cname)
+    o = object.__new__(C)
+    if dataclasses.is_dataclass(C):
+        for f in dataclasses.fields(C):
+            if f.default is not dataclasses.MISSING:
+                v = f.default
+            elif f.default_factory is not dataclasses.MISSING:
+                v = f.default_factory()
+            else:
+                v = None
+            object.__setattr__(o, f.name, v)
+    for n, val in model.items():
+        if n.startswith(prefix + ".") and "#" not in n[len(prefix):] and "." not in n[len(prefix) + 1:]:
+            ty = types_.get(n)
+            if ty and ty[0] not in ("obj", "list", "dict", "set", "lock", "tuple", "any", "callback", "opt"):
+                try:
+                    object.__setattr__(o, n[len(prefix) + 1:], conv(val, ty))
+                except Exception:
+                    pass
+    for n, val in model.items():
+        if n.startswith(prefix + ".") and n.endswith("#none") and val is True:
+            try:
+                object.__setattr__(o, n[len(prefix) + 1:-5], None)
+            except Exception:
+                pass
+    return o
 
 
 def set_path(root_objs, path, value):
@@ -263,12 +296,26 @@ def build(rep, spec_mod):
                 set_path(roots, n, InstrumentedLock(reentrant=(t[1] == "RLock")))
             except AttributeError:
                 pass
+    # havocked collaborator methods (e.g. self.executor.express): install scripts on the real collaborator objects
+    for p_ in plan:
+        nm = p_["name"]
+        root = nm.split(".")[0]
+        rt = types_.get(nm + "#ret")
+        if rt and rt[0] == "obj" and p_.get("outcome") == "return":
+            p_["value"] = make_obj(rt[1], nm + "#ret", model, types_)
+        if root in roots and "." in nm:
+            try:
+                cur = roots[root]
+                for part in nm.split(".")[1:-1]:
+                    cur = getattr(cur, part)
+                if not isinstance(getattr(cur, nm.split(".")[-1], None), Script):
+                    setattr(cur, nm.split(".")[-1], Script(nm, log, plan))
+            except Exception:
+                pass
     return mod, cls, mname, roots, args, log
 
 
-def main():
-    path = sys.argv[1]
-    rep = json.load(open(path))
+def run_once(rep, path):
     out = {"confirmed": False, "observed": "", "replay": path}
     try:
         from pyvc import spec as S
@@ -281,14 +328,12 @@ def main():
         if hook is not None:
             r = hook(rep)
             if r is not None:
-                print(json.dumps(r))
-                return 0
+                return r
         mod, cls, mname, roots, args, log = build(rep, cmod)
     except Exception as e:
         out["observed"] = "replay construction failed: " + "".join(traceback.format_exception_only(type(e), e)).strip()
         out["error"] = True
-        print(json.dumps(out))
-        return 0
+        return out
     olds = {id(o): snapshot(o) for o in roots.values()}
     old_args = {k: snapshot(v) for k, v in args.items()}
 
@@ -321,16 +366,15 @@ def main():
         out["confirmed"] = kind in ("lock-reentry", "raises", "post", "always")
         out["hang"] = True
         print(json.dumps(out))
+        sys.stdout.flush()
         os._exit(0)
     if "reentry" in res:
         out["observed"] = res["reentry"]
         out["confirmed"] = kind == "lock-reentry" or True
-        print(json.dumps(out))
-        return 0
+        return out
     if kind == "lock-reentry":
         out["observed"] = "no re-acquisition observed"
-        print(json.dumps(out))
-        return 0
+        return out
     exc = res.get("exc")
     if kind == "raises":
         allowed = rep.get("raises_allowed") or []
@@ -339,17 +383,36 @@ def main():
             out["observed"] = f"raised {type(exc).__name__}: {exc}"
         else:
             out["observed"] = "no disallowed exception" if exc is None else f"raised allowed {type(exc).__name__}"
-        print(json.dumps(out))
-        return 0
+        return out
     if exc is not None and kind in ("post", "inv-preserved", "inv-init") and kind != "xpost":
         out["observed"] = f"call raised {type(exc).__name__}: {exc} (clause is for normal exits)"
-        print(json.dumps(out))
-        return 0
+        return out
     env = {k: v for k, v in vars(cmod).items() if not k.startswith("__")}
     env.update(args)
     env.update(roots)
     if rep.get("is_init"):
         env["self"] = res.get("self")
+    def _calls_to(suf):
+        return len([c for c in log if c["name"].endswith(suf)])
+
+    def _raised(suf):
+        return any(c["name"].endswith(suf) and c.get("outcome") == "raise" for c in log)
+
+    def _returned(suf):
+        for c in reversed(log):
+            if c["name"].endswith(suf) and c.get("outcome") == "return":
+                return c.get("ret")
+        return None
+
+    def _encodable(x):
+        try:
+            x.encode()
+            return True
+        except UnicodeError:
+            return False
+
+    env.update({"calls_to": _calls_to, "raised": _raised, "returned": _returned, "encodable": _encodable,
+                "clock_first": lambda: __import__("datetime").datetime.now(), "clock_last": lambda: __import__("datetime").datetime.now()})
     env.update({"result": res.get("value"), "old": old, "exc": type(exc).__name__ if exc is not None else None,
                 "implies": lambda a, b: (not a) or bool(b), "iff": lambda a, b: bool(a) == bool(b),
                 "calls": log, "ncalls": len(log)})
@@ -364,6 +427,51 @@ def main():
     except Exception as e:
         out["observed"] = "clause evaluation failed natively: " + "".join(traceback.format_exception_only(type(e), e)).strip()
         out["error"] = True
+    return out
+
+
+def variants(rep):
+    """bounded search around the counter-model: collaborator results are re-drawn from the string constants of the
+    target module (the model of a havocked callee need not be realisable by the real callee)"""
+    import itertools, re as _re
+    rel = rep["target"].split("::")[0]
+    try:
+        src = open(os.path.join(REPO, rel), encoding="utf-8").read()
+    except OSError:
+        return
+    consts = sorted(set(_re.findall(r'["\']([A-Z][A-Z_]{2,20})["\']', src)))[:12]
+    model, types_ = rep["model"], rep.get("types", {})
+    keys = [k for k, t in types_.items() if t and t[0] == "str" and "#ret." in k and k in model]
+    calls = rep.get("calls", [])
+    if not keys or not consts:
+        return
+    n = 0
+    for combo in itertools.product(consts, repeat=len(keys)):
+        n += 1
+        if n > 600:
+            return
+        r2 = json.loads(json.dumps(rep))
+        for k, v in zip(keys, combo):
+            r2["model"][k] = v
+        yield r2, dict(zip(keys, combo))
+
+
+def main():
+    path = sys.argv[1]
+    rep = json.load(open(path))
+    out = run_once(rep, path)
+    if not out.get("confirmed") and not out.get("error") and rep.get("kind") != "lock-reentry":
+        tried = 0
+        for r2, change in variants(rep):
+            tried += 1
+            o2 = run_once(r2, path)
+            if o2.get("confirmed"):
+                o2["found_by"] = f"bounded search over collaborator results ({tried} variants)"
+                o2["witness_overrides"] = change
+                out = o2
+                break
+        else:
+            out["variants_tried"] = tried
     print(json.dumps(out, default=str))
     return 0
 
